@@ -23,7 +23,7 @@ Import ListNotations.
 From DD Require Import Base.PyStr Base.Value Diff.Tree Diff.DiffModel Path.PathModel
   Filter.FilterModel Filter.FilterProofs Filter.FilterExclude Filter.FilterThreshold Filter.FilterInclude
   Filter.FilterWitness Filter.FilterIndep Filter.FilterHash Filter.FilterGuard Filter.FilterExact Filter.FilterWitness2
-  Filter.FilterModelV Filter.FilterV Filter.FilterIndepG Filter.FilterVPath.
+  Filter.FilterModelV Filter.FilterV Filter.FilterIndepG Filter.FilterVPath Filter.FilterVSets Filter.FilterExactD.
 
 (** ** Exclusion: literal (P = membership of the rendered path in exclude_paths) or by regex (P arbitrary) *)
 
@@ -475,3 +475,55 @@ Theorem C13_value_exclusion_is_filter :
    <-> xguard (trace SK t1 t2) (excl_this (add_root_to_paths ex)) c t1 t2 = true).
 Proof. intros. apply value_exclusion_is_filter; assumption. Qed.
 Print Assumptions C13_value_exclusion_is_filter.
+
+(** ... and on inputs WITH sets (a set item has no position of its own: its level carries the path of the set and the
+    objects (item, notpresent) / (notpresent, item)): the run with SK is the run with the path predicate [trace SK t1 t2]
+    minus the set-item entries whose own level SK rejects; [run_diffh] = the run with the DeepHash-side exclusion of set
+    members, the same on both sides.  Positional mode; no [setfree]. *)
+Theorem C13_value_exclusion_with_sets :
+  forall hatom udiff ops (SK : vskip) (E : path -> bool) (hit : path -> nat -> bool) (c : cfg) (t1 t2 : value),
+  zip c = true -> wf t1 = true -> wf t2 = true ->
+  fst (run_diffv hatom udiff ops SK E no_kf hit c t1 t2) =
+  filter (set_item_ok SK) (fst (run_diffh hatom udiff ops (trace SK t1 t2) E no_kf hit c t1 t2)).
+Proof. intros. apply value_exclusion_with_sets; assumption. Qed.
+Print Assumptions C13_value_exclusion_with_sets.
+
+(** in the DEFAULT alignment mode an object-dependent exclusion is not a pure filter: [1,'a'] -> ['a','b'] with
+    exclude_types=[int] reports iterable_item_added root[1], an entry the unrestricted run (type_changes root[0],
+    values_changed root[1]) does not have - the skipped levels change which of the two passes is kept.
+    (Object-dependent options are outside C13's quantifier: documented behaviour; replayed on the implementation.) *)
+Theorem C13_value_exclusion_default_refuted :
+  exists hatom udiff ops (TY : list ty) (c : cfg) (t1 t2 : value) (e : entry),
+  zip c = false /\ wf t1 = true /\ wf t2 = true /\ setfree t1 = true /\ setfree t2 = true /\
+  In e (fst (run_full hatom udiff ops no_skip no_rxh [] [] TY no_cb no_cb None None c t1 t2)) /\
+  ~ In e (fst (run_full hatom udiff ops no_skip no_rxh [] [] [] no_cb no_cb None None c t1 t2)).
+Proof.
+  exists h0, u0, v3_ops, [TInt], default0, v3_t1, v3_t2,
+         (mkEntry KIterAdd [PIdx 1] [PIdx 1] None (Some (List.nth 1 (match v3_t2 with VList l => l | _ => [] end) (VAtom ANone))) None).
+  repeat (split; [reflexivity|]). split; [vm_compute; left; reflexivity|].
+  intros H. vm_compute in H. destruct H as [H|[H|[]]]; discriminate H.
+Qed.
+Print Assumptions C13_value_exclusion_default_refuted.
+
+(** ** Round 3, second wave: the exact characterisation in EVERY alignment mode *)
+
+(** [lguard P E c t1 t2] (input-level, threshold-free): along the common positions the filter keeps, no pair of all-atom
+    sequences has its index children partly kept and partly dropped (vacuous in positional mode).  Under it, for
+    well-formed inputs, in every mode at every threshold, the filter equation holds IFF no dictionary the filtered run
+    compares flips its whole-dict shortcut ([xguard]).  What stays inexact in the default mode is exactly the
+    all-atom-sequence clause. *)
+Theorem C13_exclude_threshold_exact_any_mode :
+  forall hatom udiff ops (P E : path -> bool) (c : cfg) (t1 t2 : value),
+  lguard P E c t1 t2 = true -> wf t1 = true -> wf t2 = true ->
+  (fst (run_diff hatom udiff ops P E c t1 t2) =
+   filter (fun e => not_under P (ep1 e)) (fst (run_diff hatom udiff ops no_skip no_skip c t1 t2))
+   <-> xguard P E c t1 t2 = true).
+Proof. intros. apply exclude_guard_exact_any_mode; assumption. Qed.
+Print Assumptions C13_exclude_threshold_exact_any_mode.
+
+(** positional mode / predicates not ending in an index meet [lguard] (so C13_exclude_threshold_exact is an instance) *)
+Theorem C13_exclude_lguard_of_mode :
+  forall (c : cfg) (P E : path -> bool) (t1 t2 : value),
+  zip c = true \/ idx_closed P -> P [] = false -> lguard P E c t1 t2 = true.
+Proof. intros. apply lguard_of_mode; assumption. Qed.
+Print Assumptions C13_exclude_lguard_of_mode.
